@@ -10,6 +10,8 @@ import builtins
 import os
 from typing import Any, Dict, Iterable, Iterator, List, Optional, Set, Tuple
 
+from . import alpha
+
 
 class AnalysisError(Exception):
     """The checker could not find or evaluate something it needs (exit 2)."""
@@ -216,6 +218,7 @@ class Index:
         self._const_cache: Dict[Tuple[str, str], Any] = {}
         self._const_busy: Set[Tuple[str, str]] = set()
         self._mro_cache: Dict[str, List[ClassInfo]] = {}
+        self.alpha_renamed: List[Tuple[str, str, str, str]] = []
         self._load()
 
     # ---------------------------------------------------------------- load
@@ -245,6 +248,10 @@ class Index:
                 except SyntaxError as exc:
                     raise AnalysisError(f'cannot parse {rel}: {exc}')
                 mod.is_pkg = fn == '__init__.py'
+                # locals renamed since the rules were written get their
+                # reference names back (alpha-conversion, see sa/alpha.py)
+                self.alpha_renamed.extend(
+                    (rel,) + t for t in alpha.normalise(rel, mod.tree))
                 _set_parents(mod.tree)
                 self.modules[name] = mod
         for mod in self.modules.values():
